@@ -220,6 +220,16 @@ class Violation(Exception):
         }
 
 
+def sut_len(obj):
+    """len() of an object of the system under test: the interpreter itself raises
+    when __len__ returns a negative number or a non-integer — that is the
+    object misbehaving, not the harness."""
+    try:
+        return len(obj)
+    except (TypeError, ValueError, OverflowError) as exc:
+        raise Violation("len", "len", "%s: %s" % (type(exc).__name__, exc), "a non-negative integer")
+
+
 def bounded(iterable, expected, what="iteration"):
     """list(iterable), but a traversal that yields far more than the container can
     hold (a cycle, a generator that never ends) is a violation, not a hang."""
